@@ -566,6 +566,8 @@ def gen_graph_spec(rng, kinds=KEY_KINDS, max_states=8, big=False, corridor=False
         for a in sorted(rng.sample(range(nA), rng.randint(1 if not big else 3, nA))):
             edges.append([s, a, rng.randrange(n), rng.choice(costs)])
     spec = dict(kind=rng.choice(kinds), n=n, nA=nA, goals=goals, edges=edges, src=rng.randrange(n))
+    if rng.random() < 0.2:
+        spec['bare_goals'] = True     # absorbing states offer no action at all (their edges in the spec are never offered)
     u = rng.random()
     if u < 0.5:
         spec['intcost'] = True        # the model's reward function returns Python ints (-1), not floats (-1.0)
@@ -603,7 +605,7 @@ def make_graph_mdp(view, rep):
     sk, ak, sid, aid, E = view.sk, view.ak, view.sid, view.aid, view.E
     num = int if view.spec.get('intcost') else float
     kw = dict(reward=lambda s, a, ns: -num(E[sid[s], aid[a]][1]),
-              actions=lambda s: [ak[a] for a in view.A.get(sid[s], [])],
+              actions=lambda s: [] if (view.spec.get('bare_goals') and sid[s] in view.goals) else [ak[a] for a in view.A.get(sid[s], [])],
               is_absorbing=lambda s: sid[s] in view.goals)
     nxt = lambda s, a: sk[E[sid[s], aid[a]][0]]
     src = sk[view.src]
